@@ -507,10 +507,51 @@ func runWorker(chk *Check, tier string, sh, nsh int, base string, deadline time.
 		keep := filepath.Join(VerifRoot, ".work", fmt.Sprintf("lastfail-%s-w%d.log", chk.ID, sh))
 		os.WriteFile(keep, []byte(tail), 0o644)
 		if res.Broken == "" {
-			res.Broken = fmt.Sprintf("worker %d died (%v); log tail in %s:\n%s", sh, err, keep, lastLines(tail, 30))
+			full, _ := os.ReadFile(logPath)
+			crash := ""
+			for _, mark := range []string{"panic: ", "fatal error: "} {
+				if i := strings.Index(string(full), mark); i >= 0 && (crash == "" || i < len(full)-len(crash)) {
+					crash = string(full)[i:]
+				}
+			}
+			if len(crash) > 6000 {
+				crash = crash[:6000]
+			}
+			if frame, inNode := crashSite(crash); crash != "" && inNode && rerr != nil {
+				// the worker process was terminated by a panic / fatal error on a goroutine running go-zenon code (a background
+				// goroutine of the node: nothing recovers there, in the real node this ends the process too)
+				res.Violate(chk.ID+":node-process-terminated:"+frame, fmt.Sprintf("worker %d of %d: the process hosting the node died (%v):\n%s\n(log: %s)", sh, nsh, err, crash, keep),
+					map[string]interface{}{"shard": sh, "shards": nsh, "tier": tier})
+				res.Incomplete = true
+			} else {
+				res.Broken = fmt.Sprintf("worker %d died (%v); log tail in %s:\n%s", sh, err, keep, lastLines(tail, 30))
+			}
 		}
 	}
 	return res
+}
+
+// crashSite finds, in a Go panic / fatal-error stack trace, the first frame that belongs neither to the runtime nor to the
+// driver, and tells whether it is go-zenon code (true) or harness code (false).
+func crashSite(stack string) (string, bool) {
+	for _, l := range strings.Split(stack, "\n") {
+		if l == "" || strings.HasPrefix(l, "\t") || strings.HasPrefix(l, "goroutine ") || !strings.Contains(l, "(") {
+			continue
+		}
+		fn := l[:strings.LastIndex(l, "(")]
+		switch {
+		case strings.HasPrefix(fn, "runtime"), strings.HasPrefix(fn, "panic"), strings.HasPrefix(fn, "sync."), strings.HasPrefix(fn, "sync/"),
+			strings.HasPrefix(fn, "verifmc/internal/xs."), strings.HasPrefix(fn, "created by"), strings.HasPrefix(fn, "internal/"),
+			strings.Contains(fn, "go-zenon/common/vsync."), strings.HasPrefix(fn, "github.com/zenon-network/go-zenon/common.DealWithErr"),
+			strings.HasPrefix(fn, "github.com/zenon-network/go-zenon/common.RecoverStack"):
+			continue
+		case strings.HasPrefix(fn, "github.com/zenon-network/go-zenon/"):
+			return strings.TrimPrefix(fn, "github.com/zenon-network/go-zenon/"), true
+		default:
+			return fn, false
+		}
+	}
+	return "", false
 }
 
 // stallLimit: how long a worker may go without recording anything before it is considered hung (VERIF_STALL_S, default 600 s).
@@ -600,7 +641,14 @@ func workerMain(a []string) {
 	func() {
 		defer func() {
 			if r := recover(); r != nil {
-				res.Broken = fmt.Sprintf("harness panic in worker %d: %v\n%s", sh, r, debug.Stack())
+				stack := string(debug.Stack())
+				if frame, inNode := crashSite(stack); inNode {
+					// a panic raised inside go-zenon that reached the check's main goroutine: the node's code failed, not the harness
+					res.Violate(chk.ID+":node-code-panics:"+frame, fmt.Sprintf("worker %d: a call into the node panicked: %v\n%s", sh, r, stack), map[string]interface{}{"shard": sh, "shards": nsh, "tier": a[1]})
+					res.Incomplete = true
+				} else {
+					res.Broken = fmt.Sprintf("harness panic in worker %d: %v\n%s", sh, r, stack)
+				}
 			}
 		}()
 		chk.Run(c, res)
